@@ -140,6 +140,7 @@ def generate(rng, tier):
         S = len(land["vals"])
         case["land"] = land
         case["start"] = rng.randrange(S)
+        case["boxed"] = rng.random() < 0.3
         if solver == "anneal":
             p = {"temperature": rng.choice([0.5, 10.0, 1000.0]), "cooling": rng.choice([0.5, 0.9, 0.9995, "linear", "log"]),
                  "min_temp": rng.choice([1e-8, 0.1, 5.0]), "max_iter": rng.choice(mi_pool)}
@@ -252,11 +253,14 @@ def run_solver(case, policy, negate=False, minimize=None):
     plan = seams.make_rng_plan(case.get("rng"))
     sg = -1.0 if negate else 1.0
 
+    boxed = bool(case.get("boxed")) and land["type"] == "table"
+    box = (lambda s: (s,)) if boxed else (lambda s: s)      # fresh, equal-but-not-identical state objects
+    unbox = (lambda s: s[0]) if boxed else (lambda s: s)
     if land["type"] == "table":
         vals = land["vals"]
 
         def f(s):
-            v = vals[s]
+            v = vals[unbox(s)]
             if negate:
                 v = -v
             run.history.append((s, v))
@@ -316,7 +320,8 @@ def run_solver(case, policy, negate=False, minimize=None):
 
                 def neighbors(s):
                     cnt[0] += 1
-                    return nb[s][cnt[0] % len(nb[s])]
+                    s = unbox(s)
+                    return box(nb[s][cnt[0] % len(nb[s])])
 
                 cooling = p["cooling"]
                 m = solvor_mod("anneal")
@@ -324,21 +329,23 @@ def run_solver(case, policy, negate=False, minimize=None):
                     cooling = m.linear_cooling(1e-3)
                 elif cooling == "log":
                     cooling = m.logarithmic_cooling(1.0)
-                run.result = m.anneal(case["start"], f, neighbors, temperature=p["temperature"], cooling=cooling,
+                run.result = m.anneal(box(case["start"]), f, neighbors, temperature=p["temperature"], cooling=cooling,
                                       min_temp=p["min_temp"], max_iter=p["max_iter"], seed=seed, **kw)
             elif solver == "tabu":
                 nb = land["nbrs"]
 
                 def neighbors_t(s):
-                    return [((s, t), t) for t in nb[s]]
+                    s = unbox(s)
+                    return [((s, t), box(t)) for t in nb[s]]
 
-                run.result = solvor_mod("tabu").tabu_search(case["start"], f, neighbors_t, cooldown=p["cooldown"],
+                run.result = solvor_mod("tabu").tabu_search(box(case["start"]), f, neighbors_t, cooldown=p["cooldown"],
                                                            max_iter=p["max_iter"], max_no_improve=p["max_no_improve"], seed=seed, **kw)
             elif solver in ("lns", "alns"):
                 nb = land["nbrs"]
 
                 def mk_destroy(off):
                     def destroy(s, rng):
+                        s = unbox(s)
                         return ("partial", s, rng.randrange(len(nb[s])) + off)
                     return destroy
 
@@ -347,25 +354,28 @@ def run_solver(case, policy, negate=False, minimize=None):
                         _, s, k = partial
                         if rng.random() < 0.25:
                             k += 1
-                        return nb[s][(k + off) % len(nb[s])]
+                        return box(nb[s][(k + off) % len(nb[s])])
                     return repair
 
                 acc = p["accept"]
                 acc_fn = accept_peer(acc) if acc.startswith("peer_") else acc
                 m = solvor_mod("lns")
                 if solver == "lns":
-                    run.result = m.lns(case["start"], f, mk_destroy(0), mk_repair(0), accept=acc_fn, start_temp=p["start_temp"],
+                    run.result = m.lns(box(case["start"]), f, mk_destroy(0), mk_repair(0), accept=acc_fn, start_temp=p["start_temp"],
                                        cooling_rate=p["cooling_rate"], max_iter=p["max_iter"], max_no_improve=p["max_no_improve"],
                                        seed=seed, **kw)
                 else:
-                    run.result = m.alns(case["start"], f, [mk_destroy(i) for i in range(p["n_destroy"])],
+                    run.result = m.alns(box(case["start"]), f, [mk_destroy(i) for i in range(p["n_destroy"])],
                                         [mk_repair(i) for i in range(p["n_repair"])], accept=acc_fn, start_temp=p["start_temp"],
                                         cooling_rate=p["cooling_rate"], segment_size=p["segment_size"],
                                         reaction_factor=p["reaction_factor"], max_iter=p["max_iter"],
                                         max_no_improve=p["max_no_improve"], seed=seed, **kw)
             elif solver == "evolve":
                 cross, mut = land["cross"], land["mut"]
-                run.result = solvor_mod("genetic").evolve(f, list(p["pop"]), lambda a, b: cross[a][b], lambda a: mut[a],
+                if "_pop_obj" not in case:
+                    case["_pop_obj"] = [box(x) for x in p["pop"]]  # one population list, reused by every run of this case
+                run.result = solvor_mod("genetic").evolve(f, case["_pop_obj"], lambda a, b: box(cross[unbox(a)][unbox(b)]),
+                                                         lambda a: box(mut[unbox(a)]),
                                                          elite_size=p["elite_size"], mutation_rate=p["mutation_rate"],
                                                          adaptive_mutation=p["adaptive_mutation"], max_iter=p["max_iter"],
                                                          tournament_k=p["tournament_k"], seed=seed, **kw)
@@ -382,7 +392,7 @@ def run_solver(case, policy, negate=False, minimize=None):
                     inertia_decay=p["inertia_decay"], cognitive=p["cognitive"], social=p["social"], v_max=p["v_max"], seed=seed,
                     initial_positions=p.get("initial_positions"), **kw)
             elif solver == "nm":
-                run.result = solvor_mod("nelder_mead").nelder_mead(f, list(p["x0"]), max_iter=p["max_iter"], tol=p["tol"],
+                run.result = solvor_mod("nelder_mead").nelder_mead(f, p["x0"], max_iter=p["max_iter"], tol=p["tol"],
                                                                   adaptive=p["adaptive"], initial_step=p["initial_step"], **kw)
             elif solver == "bayes":
                 bounds = [tuple(b) for b in p["bounds"]]
@@ -391,11 +401,11 @@ def run_solver(case, policy, negate=False, minimize=None):
                                                                 acq_restarts=p["acq_restarts"], seed=seed, **kw)
             elif solver == "powell":
                 b = [tuple(x) for x in p["bounds"]] if p["bounds"] else None
-                run.result = solvor_mod("powell").powell(f, list(p["x0"]), bounds=b, max_iter=p["max_iter"], tol=p["tol"], **kw)
+                run.result = solvor_mod("powell").powell(f, p["x0"], bounds=b, max_iter=p["max_iter"], tol=p["tol"], **kw)
             elif solver == "bfgs":
-                run.result = solvor_mod("bfgs").bfgs(grad, list(p["x0"]), objective_fn=f, max_iter=p["max_iter"], tol=p["tol"], **kw)
+                run.result = solvor_mod("bfgs").bfgs(grad, p["x0"], objective_fn=f, max_iter=p["max_iter"], tol=p["tol"], **kw)
             elif solver == "lbfgs":
-                run.result = solvor_mod("bfgs").lbfgs(grad, list(p["x0"]), objective_fn=f, m=p["m"], max_iter=p["max_iter"],
+                run.result = solvor_mod("bfgs").lbfgs(grad, p["x0"], objective_fn=f, m=p["m"], max_iter=p["max_iter"],
                                                      tol=p["tol"], **kw)
             else:
                 raise ValueError(solver)
@@ -414,6 +424,10 @@ def run_solver(case, policy, negate=False, minimize=None):
 def true_value(case, sol, negate=False):
     land = case["land"]
     if land["type"] == "table":
+        if case.get("boxed"):
+            if not (isinstance(sol, tuple) and len(sol) == 1):
+                return None
+            sol = sol[0]
         if not isinstance(sol, int) or isinstance(sol, bool) or not (0 <= sol < len(land["vals"])):
             return None
         v = land["vals"][sol]
@@ -510,6 +524,9 @@ def resolve_policy(case, base: Run):
 
 
 def execute(case) -> Outcome:
+    # the runs of one case share its input objects (x0, populations), as a caller repeating a call would;
+    # work on a private copy so that the recorded case stays pristine
+    case = copy.deepcopy(case)
     o = Outcome()
     solver = case["solver"]
     minimize = case["minimize"]
@@ -605,6 +622,8 @@ def shrink(case):
         yield shr.with_path(case, ("clock", "events"), {})
     if case["seed"] not in (0, None):
         yield shr.with_path(case, ("seed",), 0)
+    if case.get("boxed"):
+        yield shr.with_path(case, ("boxed",), False)
     if case["interval"] > 1:
         yield shr.with_path(case, ("interval",), 1)
     for name in ("max_iter", "max_no_improve", "population_size", "n_particles", "n_initial", "acq_restarts", "n_destroy", "n_repair",
